@@ -859,7 +859,9 @@ def scenario_old_store_version(cid, k=0):
     registry = {"users": [[1, "user1", "User 1"]], "packages": {"tpaaa": [{"version": "2.0.0", "by": 1, "when": "2022-06-15"}]}, "meta": {}}
     remote = render_remote(peers, registry)
     texts = render_store(store)
-    if k % 2 == 0:
+    if k == 2:
+        texts["config"] = texts["config"].replace('version = "1.0"', 'version = "9.9"', 1)     # written by a NEWER cargo-vet: always refused
+    elif k % 2 == 0:
         texts["config"] = texts["config"].replace('version = "1.0"', 'version = "0.9"', 1)
     else:
         texts["config"] = texts["config"].replace('[cargo-vet]\nversion = "1.0"\n', "", 1)
